@@ -107,8 +107,9 @@ def check_if_not_need_reshape(
             logger.info("Original shape is not broadcastable.")
             return False
         elif idx > 0:
+            # dim_from_a is 1 or dim_from_b (which may be 0): the broadcast dimension is dim_from_b
             broadcast_matmul_output_shape = [
-                max(dim_from_a, dim_from_b),  # type: ignore[type-var]
+                dim_from_b,
                 *broadcast_matmul_output_shape,
             ]
 
